@@ -113,6 +113,18 @@ def hostile_cbor():
         bytes.fromhex("7f6161ff"), bytes.fromhex("5f4101ff"), bytes.fromhex("bf0001ff"),
         bytes.fromhex("a2010101 02".replace(" ", "")), bytes.fromhex("a1f90000 00".replace(" ", "")), bytes.fromhex("a18000"),
     ]
+    # items wrapped in tags that some decoder might "see through" (24 = encoded CBOR data item, 55799 = self-described CBOR, 21-23 = expected conversions, 2/3 = bignums, unassigned
+    # numbers): a tagged item is that tagged item - its length on the wire is its own, not that of what it wraps
+    import cbor2 as _c
+    key_ = _c.dumps({1: 2, 3: -7, -1: 1, -2: bytes(32), -3: bytes(28) + b"\x43\x01\x02\x03"})
+    inner = [key_, bytes.fromhex("f93e00"), bytes.fromhex("a1f93e0000"), b"\x00", b"\xa0", bytes.fromhex("fa3fc00000"), bytes.fromhex("1800"), bytes.fromhex("a1616100") + b"\x00", b"", bytes.fromhex("5f4101ff")]
+    for x in inner:
+        wrapped = _c.dumps(x)          # the byte string holding the item
+        for tag in (24, 55799, 21, 22, 23, 63, 12345):
+            hd = bytes([0xc0 | tag]) if tag < 24 else bytes([0xd8, tag]) if tag < 256 else bytes([0xd9]) + tag.to_bytes(2, "big")
+            out.append(hd + wrapped)
+        out.append(bytes([0xd9, 0xd9, 0xf7]) + x)       # self-described CBOR around the bare item
+        out.append(bytes([0xd8, 24]) + x)               # tag 24 around something that is not a byte string
     # floating-point values in every width incl. NaN, infinities, negative zero, subnormals; decimal fractions / bigfloats with NaN-like payloads
     for f in ("f97e00", "f97c00", "f9fc00", "f98000", "f90001", "f93e00", "fa7fc00000", "fa7f800000", "fa3fc00000", "fb7ff8000000000000", "fb7ff0000000000000", "fb3ff8000000000000", "fb0000000000000001",
               "f97e01", "fa7fc00001", "fb7ff8000000000001", "fbfff8000000000000"):
